@@ -115,7 +115,8 @@ RegDepIns == { Lw("t0", "a0", 0), Li("t0", 5), Addi("t0", "t0", 1), AddI("t1", "
                Addi("t1", "t0", 2), I("mul", "t1", "t1", "t0", 0, 0), Li("t1", 3), I("sub", "t0", "t1", "t0", 0, 0),
                Lw("t1", "a0", 4), I("mv", "t2", "t0", "zero", 0, 0), AddI("t2", "t2", "t1"),
                AddI("t2", "t1", "t0"), I("mul", "t3", "t0", "t0", 0, 0),
-               Sw("t1", "a1", 64) }   \* a store miss keeps the write path busy while registers are produced and consumed
+               Sw("t1", "a1", 64),    \* a store miss keeps the write path busy while registers are produced and consumed
+               I("mv", "t1", "t1", "zero", 0, 0) }   \* a self-move still is a pending write of its register
 RegDepCases == { <<s, img>> : s \in UpTo(RegDepIns, IF Size = "large" THEN 4 ELSE 3), img \in {"ramp"} }
 RegDepCase(x) ==
   LET p == x[1] \o <<Nop>>
